@@ -804,6 +804,13 @@ def _dynamic_python(repo, rep):
 
 
 def _stamp(repo, rep):
+    stores = L.token_field_stores(repo)
+    rep.check(not stores, "R11.4", "chameleon", "only the Token class sets a "
+              "token's pos / source: nothing re-sources an error's token "
+              "after the compiler attached it", construct="token-resourced",
+              where=(L.where(stores[0][0], stores[0][1]) if stores else ""),
+              detail="; ".join("%s: %s" % (f.qualname, t)
+                               for f, ln, t in stores[:3]))
     f = repo.func("chameleon.template.BaseTemplate._cook")
     ok = False
     for t in ast.walk(f.node):
